@@ -7,7 +7,7 @@
 EXTENDS DensityQS
 CONSTANTS WS, Adv, Depth, MaxChunk, BNum, BDen
 P == [kind |-> "Fixed", W |-> 2, B |-> <<BNum, BDen>>, S |-> <<1, 2>>, Theta0 |-> <<1, 1>>,
-      K |-> 2, WTol |-> <<2, 1>>, Allow |-> FALSE, Stale |-> FALSE]
+      K |-> 2, WTol |-> <<2, 1>>, Allow |-> FALSE, Stale |-> FALSE, Sharp |-> FALSE]
 VARIABLES win, md, cm, n, granted, shWin, shMd, shCm, shDec, allDec
 vars == <<win, md, cm, n, granted, shWin, shMd, shCm, shDec, allDec>>
 Feat == {0, 1, 3}
